@@ -2,8 +2,8 @@ import Nstd.Sync.LiveSem
 /-! Semaphore, closed-system accounting over runs: k waiters, k signals ⇒ all return. -/
 namespace Nstd.Sync.Sem
 
-/-- how many threads of the list `W` are inside wait / tryWait / wait(timeout) -/
-def nw (W : List Tid) (s : St) : Nat := (W.map fun t => if waiting (s.pc t) then 1 else 0).sum
+/-- how many threads of the list `W` are inside wait / tryWait / wait(timeout) (the ENOSYS polling fallback included) -/
+def nw (W : List Tid) (s : St) : Nat := (W.map fun t => if inCall (s.pc t) then 1 else 0).sum
 
 theorem sum_le {W : List Tid} {f g : Tid → Nat} (h : ∀ x, f x ≤ g x) : (W.map f).sum ≤ (W.map g).sum := by
   induction W with
@@ -27,16 +27,16 @@ theorem nw_le_length (W : List Tid) (s : St) : nw W s ≤ W.length := by
   | nil => simp
   | cons x xs ih => simp only [List.map_cons, List.sum_cons, List.length_cons]; split <;> omega
 
-theorem nw_pos {W : List Tid} {s : St} {u : Tid} (hu : u ∈ W) (hw : waiting (s.pc u) = true) : 1 ≤ nw W s := by
-  have := sum_lt (W := W) (f := fun _ => 0) (g := fun t => if waiting (s.pc t) then 1 else 0) (fun x => Nat.zero_le _) hu
+theorem nw_pos {W : List Tid} {s : St} {u : Tid} (hu : u ∈ W) (hw : inCall (s.pc u) = true) : 1 ≤ nw W s := by
+  have := sum_lt (W := W) (f := fun _ => 0) (g := fun t => if inCall (s.pc t) then 1 else 0) (fun x => Nat.zero_le _) hu
     (by simp [hw])
   unfold nw; omega
 
 /-- one step that does not begin a new wait: no thread becomes a waiter, a success is the return of a waiter, signals only grow -/
 theorem closed_step {s s' : St} {t : Tid} {a : Act Op} (hs : step s t a = some s')
     (hc : ∀ op, a = .call op → op = .signal) :
-    (∀ x, waiting (s'.pc x) = true → waiting (s.pc x) = true) ∧
-    (s'.succ = s.succ ∨ (s'.succ = s.succ + 1 ∧ waiting (s.pc t) = true ∧ waiting (s'.pc t) = false)) ∧
+    (∀ x, inCall (s'.pc x) = true → inCall (s.pc x) = true) ∧
+    (s'.succ = s.succ ∨ (s'.succ = s.succ + 1 ∧ inCall (s.pc t) = true ∧ inCall (s'.pc t) = false)) ∧
     s.posts ≤ s'.posts := by
   cases a with
   | tick q => simp [step] at hs; subst hs; exact ⟨fun _ h => h, Or.inl rfl, Nat.le_refl _⟩
@@ -48,25 +48,25 @@ theorem closed_step {s s' : St} {t : Tid} {a : Act Op} (hs : step s t a = some s
       refine ⟨?_, Or.inl rfl, Nat.le_refl _⟩
       intro x hx
       by_cases hxt : x = t
-      · subst hxt; simp [upd, waiting] at hx
+      · subst hxt; simp [upd, inCall, waiting, polling] at hx
       · simpa [upd, hxt] using hx
     · simp at hs
   | run alt =>
     simp only [step] at hs
     cases hpc : s.pc t <;> simp only [hpc] at hs
     all_goals
-      try simp only [done] at hs
+      try simp only [done, goto] at hs
       (repeat' split at hs) <;> simp at hs <;> (try subst hs) <;>
-        (refine ⟨?_, ?_, ?_⟩ <;> (try intro x) <;> grind [upd, waiting])
+        (refine ⟨?_, ?_, ?_⟩ <;> (try intro x) <;> grind [upd, inCall, waiting, polling])
 
 /-- per-step accounting: `succ + nw` does not grow when no new wait begins and every waiter is in `W` -/
 theorem closed_step_nw {s s' : St} {t : Tid} {a : Act Op} (hs : step s t a = some s')
-    (hc : ∀ op, a = .call op → op = .signal) (W : List Tid) (hW : ∀ x, waiting (s.pc x) = true → x ∈ W) :
+    (hc : ∀ op, a = .call op → op = .signal) (W : List Tid) (hW : ∀ x, inCall (s.pc x) = true → x ∈ W) :
     s'.succ + nw W s' ≤ s.succ + nw W s := by
   obtain ⟨h1, h2, _⟩ := closed_step hs hc
-  have hle : ∀ x, (if waiting (s'.pc x) then 1 else 0) ≤ (if waiting (s.pc x) then 1 else 0) := by
+  have hle : ∀ x, (if inCall (s'.pc x) then 1 else 0) ≤ (if inCall (s.pc x) then 1 else 0) := by
     intro x
-    by_cases hx : waiting (s'.pc x) = true
+    by_cases hx : inCall (s'.pc x) = true
     · simp [hx, h1 x hx]
     · simp [hx]
   rcases h2 with h2 | ⟨h2, hwt, hwt'⟩
@@ -79,8 +79,8 @@ variable {c now e : Nat}
 /-- along a run that is closed from `n` on (no new wait begins; all waiters at `n` are in `W`) -/
 theorem closed_run (r : Run St Op step) (n : Nat) (W : List Tid)
     (hclosed : ∀ m, n ≤ m → ∀ op, r.act m = .call op → op = .signal)
-    (hW : ∀ t, waiting ((r.st n).pc t) = true → t ∈ W) :
-    ∀ d, (∀ t, waiting ((r.st (n + d)).pc t) = true → t ∈ W) ∧
+    (hW : ∀ t, inCall ((r.st n).pc t) = true → t ∈ W) :
+    ∀ d, (∀ t, inCall ((r.st (n + d)).pc t) = true → t ∈ W) ∧
       (r.st (n + d)).succ + nw W (r.st (n + d)) ≤ (r.st n).succ + nw W (r.st n) ∧ (r.st n).posts ≤ (r.st (n + d)).posts
   | 0 => ⟨hW, Nat.le_refl _, Nat.le_refl _⟩
   | d + 1 => by
@@ -95,19 +95,20 @@ theorem closed_run (r : Run St Op step) (n : Nat) (W : List Tid)
 /-- **k waiters, k signals ⇒ all return.**  Run from a reachable state, weakly fair.  From `n` on the system is closed: no
     thread begins a new wait / tryWait / wait(timeout) (signals may still be issued by anybody), and the threads that are
     inside such a call at `n` all belong to the list `W`.  Once enough signals have arrived — at `m0` the count at `n` plus
-    the signals since `n` reach `|W|` — every thread that is still waiting returns, and it returns TRUE (unless an untimed
+    the signals since `n` reach `|W|` — every thread that is still inCall returns, and it returns TRUE (unless an untimed
     wait() is interrupted by EINTR): no waiter of `W` can be starved by the others, because each of them succeeds at most
-    once.  (A waiter that is no longer waiting at `m0` has already returned — a tryWait or a timed wait may have given up
+    once.  (A waiter that is no longer inCall at `m0` has already returned — a tryWait or a timed wait may have given up
     before the signals arrived.) -/
 theorem closed_system_all_waiters_return (r : Run St Op step) (h0 : Reach c now e (r.st 0)) (hwf : WeakFair r prog)
     (n : Nat) (W : List Tid)
     (hclosed : ∀ m, n ≤ m → ∀ op, r.act m = .call op → op = .signal)
-    (hW : ∀ t, waiting ((r.st n).pc t) = true → t ∈ W)
+    (hW : ∀ t, inCall ((r.st n).pc t) = true → t ∈ W)
     (m0 : Nat) (hm0 : n ≤ m0) (henough : W.length + (r.st n).posts ≤ (r.st n).count + (r.st m0).posts)
-    (u : Tid) (hu : waiting ((r.st m0).pc u) = true) :
+    (u : Tid) (hu : waiting ((r.st m0).pc u) = true)
+    (hno : ∀ m, m0 ≤ m → ¬ (r.who m = u ∧ r.act m = .run 3)) :
     ∃ m, m0 ≤ m ∧ (r.st m).pc u = .idle ∧
       ((r.st m).ret u = some (.bool true) ∨ ((r.st m0).pc u = .wait ∧ (r.st m).ret u = some (.bool false))) := by
-  apply waiter_eventually_returns' r hwf m0 u hu
+  apply waiter_eventually_returns' r hwf m0 u hu hno
   intro m hm hP
   have hnm : n ≤ m := by omega
   obtain ⟨i1, i2, i3⟩ := closed_run r n W hclosed hW (m - n)
@@ -115,7 +116,7 @@ theorem closed_system_all_waiters_return (r : Run St Op step) (h0 : Reach c now 
     (by have := (closed_run r n W hclosed hW (m0 - n)).1; rwa [Nat.add_sub_cancel' hm0] at this) (m - m0)
   rw [Nat.add_sub_cancel' hnm] at i1 i2 i3
   rw [Nat.add_sub_cancel' hm] at j3
-  have huw : waiting ((r.st m).pc u) = true := by rw [hP]; exact hu
+  have huw : inCall ((r.st m).pc u) = true := by rw [hP]; simp [inCall, hu]
   have h1 := nw_pos (i1 u huw) huw
   have h2 := nw_le_length W (r.st n)
   have c1 := (inv_reach (reach_run r h0 m)).cons
